@@ -272,4 +272,42 @@ theorem popAddNext_eq (st acc : List PTree) : popAddNext st acc = st.reverse ++ 
   | nil => simp [popAddNext]
   | cons x xs ih => simp [popAddNext, ih]
 
+/-! ## `Document.clone` -/
+
+theorem stripList_eq_map : ∀ (l : List PTree), stripList l = l.map strip
+  | [] => by simp
+  | k :: ks => by simp [stripList_eq_map ks]
+
+theorem idsOfList_eq_flatMap : ∀ (l : List PTree), idsOfList l = l.flatMap idsOf
+  | [] => by simp
+  | k :: ks => by simp [idsOfList_eq_flatMap ks]
+
+theorem stripList_reverse (l : List PTree) : stripList l.reverse = (stripList l).reverse := by
+  simp [stripList_eq_map]
+
+theorem idsOfList_reverse_perm (l : List PTree) : (idsOfList l.reverse).Perm (idsOfList l) := by
+  rw [idsOfList_eq_flatMap, idsOfList_eq_flatMap]
+  exact List.Perm.flatMap_right _ (List.reverse_perm l)
+
+theorem popCopyAddPrevious_eq : ∀ (st acc : List PTree) (n : Nat),
+    popCopyAddPrevious n st acc = (acc ++ (cloneListP n st).1, (cloneListP n st).2)
+  | [], acc, n => by simp [popCopyAddPrevious]
+  | x :: st, acc, n => by
+    simp [popCopyAddPrevious, popCopyAddPrevious_eq st]
+
+theorem popCopyAddNext_eq : ∀ (st acc : List PTree) (n : Nat),
+    popCopyAddNext n st acc = ((cloneListP n st).1.reverse ++ acc, (cloneListP n st).2)
+  | [], acc, n => by simp [popCopyAddNext]
+  | x :: st, acc, n => by
+    simp [popCopyAddNext, popCopyAddNext_eq st]
+
+/-- `Document.clone` without the stacks -/
+theorem cloneDocument_eq (n : Nat) (d : PDoc) :
+    cloneDocument n d =
+      ({ prologue := (cloneListP (cloneP n d.root).2 d.prologue).1,
+         root := (cloneP n d.root).1,
+         epilogue := (cloneListP (cloneListP (cloneP n d.root).2 d.prologue).2 d.epilogue.reverse).1.reverse },
+       (cloneListP (cloneListP (cloneP n d.root).2 d.prologue).2 d.epilogue.reverse).2) := by
+  simp [cloneDocument, pushAll_eq, popCopyAddPrevious_eq, popCopyAddNext_eq]
+
 end Delb.Clone
